@@ -135,6 +135,7 @@ ValidFields(t, env, v, i) ==
       cenv == ArgsVal(f.na, env, t, v)
   IN /\ IF ~IsOpt(f) THEN Valid1(f.t, cenv, v[i])
         ELSE IF NatMasked(f) /\ ~MaskOn(f, env, t, v) THEN TRUE      \* not written at all
+        ELSE IF NatMasked(f) /\ ~IsP(v[i]) THEN FALSE                \* the mask announces a field the value lacks
         ELSE (IsP(v[i]) /\ ~f.isbit) => Valid1(f.t, cenv, PV(v[i]))
      /\ ValidFields(t, env, v, i + 1)
 Valid1(tn, env, v) ==
